@@ -156,7 +156,7 @@ def _linear_sub(root, c, new):
     return "".join(out)
 
 
-WORDS = ["foo bar", "a foo b", "xfoox", "bar", "foo", "ab ba", "Foo", "o", "12 foo 3"]
+WORDS = ["foo bar", "a foo b", "xfoox", "bar", "foo", "ab ba", "Foo", "o", "12 foo 3", "foo\nfoo bar", "a\nfoo", "bar o\no"]
 
 
 def all_text_nodes(root):
@@ -207,7 +207,7 @@ def run_container(case, ctx):
                 row.append_cell(cell)
             t.append_row(row)
         body.append(t)
-        body.append(List([WORDS[case["w"][-1] % len(WORDS)], "foo item"]))
+        body.append(List([WORDS[case["w"][-1] % len(WORDS)], "foo item", "first\nfoo second"]))
         recv = {"table": lambda: body.get_table(0), "row": lambda: body.get_table(0).get_row(case["y"] % 2, clone=False),
                 "cell": lambda: body.get_table(0).get_row(case["y"] % 2, clone=False).get_cell(case["x"] % 3, clone=False),
                 "body": lambda: body, "list": lambda: body.get_list(position=0)}[case["recv"]]()
@@ -264,9 +264,9 @@ def run_shard(ctx):
     ctx.run_given(mk, ctx.budget(40000, 1200000))
 
     def mkc():
-        cases = st.fixed_dictionaries({"recv": st.sampled_from(["table", "row", "cell", "body", "list"]), "w": st.lists(st.integers(0, 8), min_size=3, max_size=7),
+        cases = st.fixed_dictionaries({"recv": st.sampled_from(["table", "row", "cell", "body", "list"]), "w": st.lists(st.integers(0, 11), min_size=3, max_size=7),
                                        "how": st.lists(st.integers(0, 3), min_size=2, max_size=6), "x": st.integers(0, 2), "y": st.integers(0, 1),
-                                       "pat": st.integers(0, 8), "mode": st.sampled_from(["count", "replace"]), "new": st.integers(0, 3)})
+                                       "pat": st.integers(0, 10), "mode": st.sampled_from(["count", "replace"]), "new": st.integers(0, 3)})
 
         @given(cases)
         def t(case):
